@@ -241,7 +241,13 @@ class Engine:
         s = z3.Solver(); s.set('timeout', self.solver_timeout_ms); s.add(*cs)
         t0 = time.time(); r = s.check(); self.stats['solver_s'] += time.time() - t0; self.stats['queries'] += 1
         if r == z3.unknown:
-            raise Inconclusive('solver unknown in feasibility check')
+            # retry once with a larger budget (machine load); if still undecided, explore the branch: a branch that is in fact infeasible only adds
+            # paths whose path condition is unsatisfiable, so every claim on them is discharged by the final (untimed-out) query -- sound, never a pass by default
+            s = z3.Solver(); s.set('timeout', self.solver_timeout_ms * 4); s.add(*cs)
+            t0 = time.time(); r = s.check(); self.stats['solver_s'] += time.time() - t0; self.stats['queries'] += 1
+            if r == z3.unknown:
+                self.stats['feasible_unknown'] = self.stats.get('feasible_unknown', 0) + 1
+                return True
         return r == z3.sat
 
     # ---------------- typed fresh values
